@@ -31,9 +31,16 @@ structure St where
   net : Net := Net.empty
   sp : Paths.State
   owner : List (Nat × Nat) := []            -- gate ↦ module
+  down : List (Nat × Nat) := []             -- module ↦ time of its shutdown
   links : List (Nat × Nat × Option Nat) := []   -- declared channel of every effective link (spec side)
 
 def St.ownerOf (st : St) (g : Nat) : Nat := ((st.owner.find? (·.1 == g)).map (·.2)).getD 0
+
+/-- module `m` is active at time `t` (it shuts down for good at its `down` time) -/
+def St.active (st : St) (m t : Nat) : Bool :=
+  match st.down.find? (·.1 == m) with
+  | some (_, d) => t < d
+  | none => true
 
 def St.linkChan (st : St) (a b : Nat) : Option Nat :=
   ((st.links.find? fun l => (l.1 == a && l.2.1 == b) || (l.1 == b && l.2.1 == a)).map (·.2.2)).getD none
@@ -61,22 +68,49 @@ def specWalk (st : St) (g : Nat) : String :=
 
 def mname (m : Nat) : String := s!"m{m}"
 
-def modelSend (st : St) (g at_ delay : Nat) : String :=
-  match send st.net st.ownerOf (fun _ => true) (st.n + 1) g (at_ + delay) with
-  | .handled m t last true => s!"n=1 rx={mname m} t={t} sender={mname (st.ownerOf g)} receiver={mname m} last={optG last}"
+/-- what the harness line shows for a fate -/
+def showFate : Fate → String
+  | .handled m t last true sender => s!"n=1 rx={mname m} t={t} sender={mname sender} receiver={mname m} last={optG last}"
   | .handled .. => "n=0"
   | .dropped .. => "n=0"
   | .outOfFuel => "out-of-fuel"
   | .sendPanic => "skipped-transit"
 
-def specSend (st : St) (g at_ delay : Nat) : String :=
+/-- the owner of `g` runs its handler at `at_` (only if it is still active) and sends -/
+def modelFate (st : St) (g at_ delay : Nat) : Option Fate :=
+  if st.active (st.ownerOf g) at_ then
+    some (send st.net st.ownerOf st.active (st.ownerOf g) (st.n + 1) g (at_ + delay))
+  else none
+
+def modelSend (st : St) (g at_ delay : Nat) : String :=
+  match modelFate st g at_ delay with
+  | some f => showFate f
+  | none => "n=0"
+
+inductive SpecFate
+  | transit | senderDown | dropped | unseen
+  | delivered (rx : Nat) (t : Nat) (sender : Nat) (last : Nat)
+
+/-- the specification: the message visits the gates of the abstract path in order, gate `i` at
+    send time + the declared delays of the first `i` hops; it is dropped on the first gate before the
+    last whose owner is inactive at that moment, and ignored if the far-end owner is inactive on arrival -/
+def specFate (st : St) (g at_ delay : Nat) : SpecFate :=
+  if !st.active (st.ownerOf g) at_ then .senderDown else
   match Paths.walkFrom st.sp g with
-  | none => "skipped-transit"
+  | none => .transit
   | some rest =>
-    let gates := g :: rest
-    let d := ((gates.zip rest).map fun p => (st.linkChan p.1 p.2).getD 0).sum
-    let far := (gates.getLast?).getD g
-    s!"n=1 rx={mname (st.ownerOf far)} t={at_ + delay + d} sender={mname (st.ownerOf g)} receiver={mname (st.ownerOf far)} last={gname far}"
+    let rec go (cur : Nat) (t : Nat) : List Nat → SpecFate
+      | [] => if st.active (st.ownerOf cur) t then .delivered (st.ownerOf cur) t (st.ownerOf g) cur else .unseen
+      | nxt :: more =>
+        if !st.active (st.ownerOf cur) t then .dropped
+        else go nxt (t + (st.linkChan cur nxt).getD 0) more
+    go g (at_ + delay) rest
+
+def specSend (st : St) (g at_ delay : Nat) : String :=
+  match specFate st g at_ delay with
+  | .transit => "skipped-transit"
+  | .senderDown | .dropped | .unseen => "n=0"
+  | .delivered rx t sender last => s!"n=1 rx={mname rx} t={t} sender={mname sender} receiver={mname rx} last={gname last}"
 
 structure Stats where
   links : Nat := 0
@@ -88,6 +122,9 @@ structure Stats where
   maxhops : Nat := 0
   multihopSends : Nat := 0
   delayed : Nat := 0
+  drops : Nat := 0        -- dropped on a gate whose owner was shut down (not the last gate)
+  unseen : Nat := 0       -- arrived at a far-end owner that was shut down
+  senderdown : Nat := 0   -- the sending module was shut down before its send
 
 def maxGate (body : List String) : Nat := Id.run do
   let mut n := 0
@@ -115,7 +152,10 @@ def runCase (c : Case) : String := Id.run do
     let l := words lhs
     let impl := rhs.trimAscii.toString
     match l with
-    | ["mod", _] => pure ()
+    | "mod" :: m :: rest =>
+      match ident 'm' m, kvNat rest "down" with
+      | some m, some d => st := { st with down := (m, d) :: st.down }
+      | _, _ => pure ()
     | "gate" :: g :: rest =>
       match ident 'g' g, (kv rest "mod").bind (ident 'm') with
       | some g, some m => st := { st with owner := (g, m) :: st.owner }
@@ -174,11 +214,17 @@ def runCase (c : Case) : String := Id.run do
           if rest.length ≥ 2 then s := { s with multihopSends := s.multihopSends + 1 }
           if delay > 0 then s := { s with delayed := s.delayed + 1 }
         | none => pure ()
+        match specFate st g at_ delay with
+        | .dropped => s := { s with drops := s.drops + 1 }
+        | .unseen => s := { s with unseen := s.unseen + 1 }
+        | .senderDown => s := { s with senderdown := s.senderdown + 1 }
+        | _ => pure ()
       | _, _, _ => return s!"fail {id} op={i} kind=badline detail=[{line}]"
     | _ => return s!"fail {id} op={i} kind=badline detail=[{line}]"
-  -- non-trivial: a chain of >= 3 hops was walked and a message crossed >= 2 hops
-  let nt := s.maxhops ≥ 3 && s.multihopSends ≥ 1 && s.links ≥ 3
-  return s!"ok {id} nt={if nt then 1 else 0} ops={i} links={s.links} noops={s.noops} panics={s.panics} rings={s.rings} walks={s.walks} sends={s.sends} multihop={s.multihopSends} delayed={s.delayed} maxhops={s.maxhops}"
+  -- non-trivial: a chain of >= 3 hops was walked and a message crossed (or was dropped on) a chain of >= 2 hops;
+  -- in a case with shut-down modules additionally >= 1 message met an inactive owner (dropped in transit or ignored on arrival)
+  let nt := s.maxhops ≥ 3 && s.multihopSends ≥ 1 && s.links ≥ 3 && (st.down.isEmpty || s.drops + s.unseen ≥ 1)
+  return s!"ok {id} nt={if nt then 1 else 0} ops={i} links={s.links} noops={s.noops} panics={s.panics} rings={s.rings} walks={s.walks} sends={s.sends} multihop={s.multihopSends} delayed={s.delayed} maxhops={s.maxhops} downmods={st.down.length} drops={s.drops} unseen={s.unseen} senderdown={s.senderdown}"
 
 def main (stdin : IO.FS.Stream) : IO Unit := do
   let cases ← readCases stdin
